@@ -28,10 +28,23 @@
 // *receive* portion continues to work.
 
 use std::io::{self, Read, Write};
+#[cfg(not(quandary_verif))]
 use std::net::{IpAddr, SocketAddr, TcpStream};
+#[cfg(quandary_verif)]
+use std::net::{IpAddr, SocketAddr};
+#[cfg(quandary_verif)]
+use crate::verif::net::TcpStream;
 use std::sync::Arc;
+#[cfg(not(quandary_verif))]
 use std::thread;
+#[cfg(quandary_verif)]
+use crate::verif::thread;
+#[cfg(not(quandary_verif))]
 use std::time::{Duration, Instant};
+#[cfg(quandary_verif)]
+use std::time::Duration;
+#[cfg(quandary_verif)]
+use crate::verif::time::Instant;
 
 use log::error;
 
